@@ -13,6 +13,8 @@ EXTENDS Movie, Json
 CONSTANTS Structures, TrexDurs, Bases, DurModes, CtsModes, TfdtVs, Deliveries,
           MdatFirsts,       \* {FALSE}, {TRUE} or both: media data of a fragment before its moof
 
+          Orders,           \* subset of {"asc", "desc"}: "desc" = sequence numbers (mfhd) AND decode times (tfdt) DEcrease
+                            \* from fragment to fragment -- samples are still numbered in FILE order (8.8.5, C09)
           TrexPerTrack      \* TRUE: track t gets the default duration trexDur + t (differs between tracks)
 
 \* structures: Seq (fragments) of Seq (trafs) of <<track, count>>
@@ -42,8 +44,8 @@ MixStructures == {S2, S3, S5, St10, St12, St13}
 TrexBoth == {<<>>, <<7>>}
 TwoTrackStructures == {S4, S5, S6}
 
-VARIABLES st, trexDur, base, durMode, ctsMode, tfdtV, delivery, mdatFirst, out
-vars == <<st, trexDur, base, durMode, ctsMode, tfdtV, delivery, mdatFirst, out>>
+VARIABLES st, trexDur, base, durMode, ctsMode, tfdtV, delivery, mdatFirst, order, out
+vars == <<st, trexDur, base, durMode, ctsMode, tfdtV, delivery, mdatFirst, order, out>>
 
 \* duration mode of fragment i: the mixed modes change the source of the durations from one
 \* fragment of a track to the next (per-sample / tfhd default / movie-level default)
@@ -57,8 +59,9 @@ NTracks == IF \E i \in 1..Len(st) : \E j \in 1..Len(st[i]) : st[i][j][1] = 2 THE
 TrafOf(i, j) ==
   LET n == IF st[i][j][2] < 0 THEN 0 ELSE st[i][j][2] IN
   [ track |-> st[i][j][1], base |-> base, noTrun |-> st[i][j][2] < 0,
-    tfhdDur |-> IF ModeAt(i) = "tfhd" THEN Some(<<5>>) ELSE None,
-    tfdt |-> IF tfdtV = 1 THEN <<1, 0, 0, 0, i>> ELSE FromInt(100 * i + j),
+    \* "tfhd0": the fragment header states a default duration of 0 (present, not missing)
+    tfhdDur |-> IF ModeAt(i) = "tfhd" THEN Some(<<5>>) ELSE IF ModeAt(i) = "tfhd0" THEN Some(<<>>) ELSE None,
+    tfdt |-> LET ii == IF order = "desc" THEN 9 - i ELSE i IN IF tfdtV = 1 THEN <<1, 0, 0, 0, ii>> ELSE FromInt(100 * ii + j),
     tfdtV |-> tfdtV,
     durs |-> IF ModeAt(i) = "per" THEN Some([s \in 1..n |-> FromInt(2 * s + i)]) ELSE None,
     sizes |-> [s \in 1..n |-> (i + j + s) % 3],
@@ -71,19 +74,19 @@ TheFrag ==
   [ mts |-> <<3, 232>>,
     tracks |-> [t \in 1..NTracks |-> [kind |-> IF t = 1 THEN "avc" ELSE "aac", timescale |-> <<3, 232>>, trexDur |-> IF TrexPerTrack THEN Add(trexDur, FromInt(t)) ELSE trexDur]],
     frags |-> [i \in 1..Len(st) |-> [j \in 1..Len(st[i]) |-> TrafOf(i, j)]],
-    mdatFirst |-> mdatFirst ]
+    mdatFirst |-> mdatFirst ] @@ (IF order = "desc" THEN [seq |-> [i \in 1..Len(st) |-> 20 - 3 * i]] ELSE [x \in {} |-> 0])
 
 Init == /\ st \in Structures /\ trexDur \in TrexDurs /\ base \in Bases /\ durMode \in DurModes
-        /\ ctsMode \in CtsModes /\ tfdtV \in TfdtVs /\ delivery \in Deliveries /\ mdatFirst \in MdatFirsts
+        /\ ctsMode \in CtsModes /\ tfdtV \in TfdtVs /\ delivery \in Deliveries /\ mdatFirst \in MdatFirsts /\ order \in Orders
         /\ out = [done |-> FALSE]
 
 Render == /\ ~out.done
           /\ out' = [done |-> TRUE] @@ RenderFrag(TheFrag, delivery, <<>>)
-          /\ UNCHANGED <<st, trexDur, base, durMode, ctsMode, tfdtV, delivery, mdatFirst>>
+          /\ UNCHANGED <<st, trexDur, base, durMode, ctsMode, tfdtV, delivery, mdatFirst, order>>
 Next == Render
 Spec == Init /\ [][Next]_vars
 
 Emit == out.done => PrintT("CASE " \o ToJson([file |-> out.file, init |-> out.init, delivery |-> delivery,
                                               base |-> base, durMode |-> durMode, ctsMode |-> ctsMode,
-                                              tfdtV |-> tfdtV, nfrag |-> Len(st), ntracks |-> NTracks, mdatFirst |-> mdatFirst, st |-> st]))
+                                              tfdtV |-> tfdtV, nfrag |-> Len(st), ntracks |-> NTracks, mdatFirst |-> mdatFirst, st |-> st, trexDur |-> trexDur, order |-> order]))
 =============================================================================
